@@ -24,6 +24,18 @@ Theorem C20_colon_none_required : forall text layout ms acc last r,
 Proof. exact sf_loop_no_colon_matches. Qed.
 Print Assumptions C20_colon_none_required.
 
+(* ... while sec_colon_cautious, on its second pass, accepts exactly what the default accepts (same matches, same
+   finder flags) and adds the pulled_sec_without_colon warning -- for every text without a colon after any section *)
+Theorem C20_colon_none_cautious : forall text layout f1 f0,
+  no_colon text = true -> layout_in layout [TRS_DESC; S_DESC_TR] = true ->
+  sec_finder text (Some layout) RC_cautious = Ok f1 -> sec_finder text (Some layout) (RC_bool false) = Ok f0 ->
+  sf_matches f1 = sf_matches f0 /\
+  (sf_matches f0 = [] -> f1 = f0) /\
+  (sf_matches f0 <> [] -> exists nums, let flag := s "pulled_sec_without_colon<" ++ join (s ",") nums ++ s ">" in
+                                      sf_flags f1 = sf_flags f0 ++ [flag] /\ sf_flag_lines f1 = sf_flag_lines f0 ++ [(flag, flag)]).
+Proof. exact sec_finder_cautious_no_colon. Qed.
+Print Assumptions C20_colon_none_cautious.
+
 (* sec_within with exactly one staged tract: leading (index 0) and trailing unused text, cleaned
    and at least 4 characters long, is joined around the description in order; otherwise nothing changes *)
 Theorem C20_sec_within_one : forall c unused r,
